@@ -7,6 +7,7 @@ CONSTANTS
   MaxDeviate = 1
   KLMs = {245, 514}
   FactorKindsC14 = {}
+  Warm = {"none"}
 INIT Init
 NEXT Next
 CHECK_DEADLOCK FALSE
